@@ -6,7 +6,7 @@
 # Used only for detection demos while other builds use /repo; the registered checks always use /repo.
 set -u
 patch=$(realpath "$1"); id=$2; tier=${3:-quick}
-M=/tmp/mut
+M=${MUT_DIR:-/tmp/mut}
 mkdir -p $M
 if [ ! -d $M/repo ]; then git -C /repo worktree add -q --detach $M/repo HEAD || exit 2; fi
 git -C $M/repo checkout -q -- . ; git -C $M/repo clean -fdq; git -C $M/repo checkout -q --detach "$(git -C /repo rev-parse HEAD)" || exit 2
